@@ -439,7 +439,7 @@ pub fn run(cfg: &Cfg) -> Report {
             check_case(d, r, max, &ops);
         }
     });
-    huge_scenarios(&mut rep);
+    crate::watch::guarded("stack: capacities and iterators near usize::MAX, non-fused / endless / loosely hinted iterators", || huge_scenarios(&mut rep));
     rep.notes.push(format!("exhaustive part: all histories of length 1..={maxlen_exh} over a {k}-operation alphabet, initial capacities 0..3 ({n_exh} histories); random part: {n_rand} histories of length <= {rand_len}"));
     rep
 }
